@@ -367,6 +367,9 @@ class ExcelModel:
             references = self.references
             formula_ranges = self.formula_ranges(context)
             external_links = self.external_links(context)
+            for fr in formula_ranges:  # Array formulas spilling into the range.
+                if (fr & Ranges((rng,))).ranges:
+                    stack.append(fr.ranges[0]['name'])
 
             _name = '%s'
             if 'sheet_id' in rng:
